@@ -61,6 +61,21 @@ def check_case(res, spec, method, fit, ne, label):
     replay = {"spec": {k: spec[k] for k in ("vertices", "edges", "cells", "ifaces", "meta")}, "method": method, "fit": fit, "ne": ne, "label": label}
     inj, resid = analytic_injective(spec)
     if not inj:
+        # the recovery cannot be judged, but which junctions get equations can (C02's clause, needed by C01's argument)
+        if ne is None and method is None:
+            fr_ = impl.frame(spec)
+            f_ = impl.forsys_of({0: fr_})
+            try:
+                with impl.quiet():
+                    f_.build_force_matrix(when=0, circle_fit_method=fit, angle_limit=np.inf)
+                _, juncs_ = expected_structure(spec, False)
+                if set(f_.force_matrices[0].map_vid_to_row) != set(juncs_):
+                    odd = sorted(set(f_.force_matrices[0].map_vid_to_row) ^ set(juncs_))[:4]
+                    res.fail("oracle", f"junctions {odd} : the set of junctions with force-balance equations differs from 'three or more cells and three or more "
+                             f"internal interfaces' ({len(f_.force_matrices[0].map_vid_to_row)} vs {len(juncs_)})", replay)
+            except Exception as ex:  # noqa
+                res.fail("oracle", f"build_force_matrix raised {type(ex).__name__}: {str(ex)[:80]}", replay)
+            res.case((tuple(tuple(x[1:]) for x in spec["vertices"][:5]), len(spec["cells"]), "structure-only", fit), nontrivial=True)
         res.count("force balance does not determine the tensions uniquely (not judged)")
         return
     if resid > 1e-9:
@@ -170,6 +185,12 @@ def check_case(res, spec, method, fit, ne, label):
     res.extra["worst_error_judged"] = max(res.extra.get("worst_error_judged", 0.0), err if (not nd1 and err <= tol) else 0.0)
     res.sample({"label": label, "method": method, "fit": fit, "ne": ne, "interfaces": len(internal), "max_error": err, "tolerance": tol,
                 "perturbation_bound": bound, "worst_tangent_error": worst_E, "d1_ends": nd1})
+    if ne is None:
+        _, juncs_x = expected_structure(spec, False)
+        if set(rows_used) != set(juncs_x):
+            odd = sorted(set(rows_used) ^ set(juncs_x))[:4]
+            res.fail("oracle", f"junctions {odd} : the set of junctions with force-balance equations differs from 'three or more cells and three or more "
+                     f"internal interfaces' ({len(rows_used)} vs {len(juncs_x)})", replay)
     if not usable:
         res.count("tolerance not derivable (two interfaces with the same ends): not judged")
         return
@@ -200,6 +221,17 @@ def tissues(rng, tier):
             yield al, f"aligned{j}"
         if j == 0 and len(base["cells"]) >= 8:
             yield gen.similarity(base, scale=float(rng.choice([1e-6, 1e6])), theta=float(rng.uniform(0, 6.28))), "unit-scale"
+    # junctions of four interfaces (cocircular sites): an exact square lattice and a random tissue with a small exact square of sites in it
+    yield gen.lattice_tissue(4, 4, "square", npts=int(rng.integers(0, 3))), "square-lattice"
+    for _ in range(20):
+        sites = gen.random_sites(rng, int(rng.integers(40, 70)), 100.0)
+        c0, h = rng.uniform(35, 65, size=2), float(rng.uniform(3, 6))
+        sq = np.array([[c0[0] - h, c0[1] - h], [c0[0] + h, c0[1] - h], [c0[0] + h, c0[1] + h], [c0[0] - h, c0[1] + h]])
+        keep = [p for p in sites if np.hypot(*(p - c0)) > 2.2 * h]
+        four = gen.voronoi_tissue(rng, sites=np.vstack([np.array(keep), sq]), npts=int(rng.integers(0, 4)))
+        if len(four["cells"]) >= 8:
+            yield four, "four-fold-junction"
+            break
     n = 6 if tier == "quick" else 100
     for k in range(n):
         kind = k % 3
